@@ -163,6 +163,7 @@ func main() {
 	args := []string{"-out", filepath.Join(scratch, "src"), "-overlay", filepath.Join(scratch, "overlay.json"),
 		repo, repo + "/internal/xsync", repo + "/internal/xtime", repo + "/internal/xatomic",
 		repo + "/ee/plugins/prometheus:sa",
+		ululeDir() + "/drivers/store/memory:satc",
 		"+" + repo + "/ee/plugins/prometheus/zz_verif_licence_bypass.go=" + filepath.Join(verifDir, "harness/overlay/prom_bypass.go")}
 	for _, p := range conf.extraPkg {
 		if strings.HasPrefix(p, "+") {
@@ -561,4 +562,15 @@ func matchKnown(known map[string]string, sig string) (string, bool) {
 		}
 	}
 	return "", false
+}
+
+// ululeDir is the writable copy of github.com/ulule/limiter/v3 that bin/setup makes from the module cache
+// (its in-memory store reads the clock and runs a cleaner goroutine: both come under the controlled
+// runtime; the build overlay does not reach packages that live inside the module cache).
+func ululeDir() string {
+	dir := filepath.Join(verifDir, ".cache", "ulule-limiter")
+	if _, err := os.Stat(filepath.Join(dir, "go.mod")); err != nil {
+		run(verifDir, goEnv(), filepath.Join(verifDir, "bin", "setup"))
+	}
+	return dir
 }
